@@ -1,94 +1,84 @@
 //! C16 — stack use does not grow with the amount of data processed.
 //!
 //! requests:
-//!   run <site> <size> <profile>     profile = dev | release
+//!   run <site> n=<size> <profile>   profile = dev | release
 //!   site <name> <n>                 model-only request (class / predicted depth); echoed here
 //!
 //! `exec` never runs an operation in-process: for every `run` request it re-executes ITSELF
-//! (`std::env::current_exe()`, hidden sub-command `child <site> <size>`) three times — once at
-//! `<size>` (does the operation complete on a 2 MiB stack?) and once at each of the two probe sizes
-//! (how deep did the stack get?).  The child runs the REAL operation on a thread created with
-//! `std::thread::Builder::new().stack_size(2 MiB)`, prints one line and exits 0; a child killed by
-//! SIGSEGV/SIGABRT (Rust's stack-overflow handler aborts) or exiting non-zero is `outcome=abort`.
-//! Core dumps are disabled in the child (RLIMIT_CORE = 0) before anything else happens.
+//! (`std::env::current_exe()`, hidden sub-command `child <site> <size> <cpu-seconds>`): once at
+//! `<size>` (does the operation complete on a 2 MiB stack?) and once at each of the three probe sizes
+//! (how deep did the stack get? — cached per (site, profile)).  The child runs the REAL operation on
+//! a thread created with `std::thread::Builder::new().stack_size(2 MiB)`, prints one line and exits
+//! 0.  Core dumps are disabled in the child (RLIMIT_CORE = 0) before anything else happens.
 //!
-//! Stack extent: the thread entry records the address of a local; after the operation the child asks
-//! the kernel (`mincore`) which pages of its own stack mapping below that address have ever been
-//! touched; the distance to the lowest touched page is the high-water mark (4 KiB granularity, THP
-//! disabled for the child so that a touched page never drags 2 MiB in).  growth = linear iff the
-//! extent grows by at least 16 bytes (the smallest possible x86-64 call frame) per additional element.
-use std::io::Read as _;
+//! Everything that decides a verdict is independent of machine load:
+//!  * the stack extent is measured by painting the stack (probe.rs), at 8-byte granularity;
+//!  * `growth=linear` iff the extent grows by at least 16 bytes (the smallest x86-64 call frame) per
+//!    additional element over BOTH increments 100 -> 400 -> 1600 (a logarithmic or capped increase
+//!    fails the second one);
+//!  * `FAIL.stack_overflow` only if the child died of SIGSEGV / SIGBUS or printed Rust's
+//!    "has overflowed its stack" before SIGABRT;
+//!  * a child is never timed on the wall clock: it limits its own CPU time (RLIMIT_CPU, generous) and
+//!    the parent only has a very long wall-clock backstop (a sleeping deadlock).  CPU limit, backstop,
+//!    death by any other signal (e.g. the OOM killer) and a skipped request are reported as
+//!    `completed=<what>` — a difference to the model (`completed=yes`), never an oracle failure.
+//!
+//! When the probes show linear growth but the requested size completed (sizes of the quadratic-time
+//! sites are capped), one more child runs at the size at which the measured slope exhausts 2 MiB
+//! (at most 10^6, the quantifier's range): the abort there is the concrete failing input.
+use std::collections::HashMap;
+use std::io::{BufRead, Read as _, Write as _};
+use std::os::unix::process::ExitStatusExt;
 use std::path::PathBuf;
 use std::process::{Command, Stdio};
-use std::sync::OnceLock;
+use std::sync::{Arc, Mutex, OnceLock};
 use std::time::{Duration, Instant};
 
-use sophia_api::MownStr;
-use sophia_api::prelude::*;
-use sophia_api::quad::Spog;
-use sophia_api::term::{BnodeId, SimpleTerm};
-use sophia_inmem::dataset::LightDataset;
-use sophia_inmem::graph::LightGraph;
-use sophia_iri::IriRef;
 use vhcore::GenCtx;
 
-const STACK: usize = 2 * 1024 * 1024;
-pub const PROBE_SMALL: usize = 100;
-pub const PROBE_LARGE: usize = 1000;
-const PAGE: usize = 4096;
+mod probe;
+mod sites;
 
-/// (site, cap on the size requested in the quick tier, cap in the thorough tier)
-/// Pretty Turtle is quadratic in the number of list cells / subjects (`list_item` and
-/// `write_properties` scan the whole BTreeSet per node), so its sizes are capped to keep the check's
-/// running time bounded; that is a time limit of the check, not a statement about the stack.
-pub const SITES: &[(&str, usize, usize)] = &[
-    ("iter_gspo_first", usize::MAX, usize::MAX),
-    ("iter_gspo_last", usize::MAX, usize::MAX),
-    ("iter_bcd_first", usize::MAX, usize::MAX),
-    ("iter_bcd_last", usize::MAX, usize::MAX),
-    ("iter_cd_first", usize::MAX, usize::MAX),
-    ("iter_cd_last", usize::MAX, usize::MAX),
-    ("iter_spo_first", usize::MAX, usize::MAX),
-    ("iter_spo_last", usize::MAX, usize::MAX),
-    ("iter_bc_first", usize::MAX, usize::MAX),
-    ("iter_bc_last", usize::MAX, usize::MAX),
-    ("nt_literal", usize::MAX, usize::MAX),
-    ("c14n_literal", usize::MAX, usize::MAX),
-    ("sparql_graph", usize::MAX, usize::MAX),
-    ("sparql_bgp", usize::MAX, usize::MAX),
-    ("jsonld_list", usize::MAX, usize::MAX),
-    ("turtle_list", 1500, 4000),
-    ("turtle_subjects", 1500, 4000),
-    ("turtle_objects", usize::MAX, usize::MAX),
-    ("parse_nt", usize::MAX, usize::MAX),
-    ("parse_turtle", usize::MAX, usize::MAX),
-];
+use probe::STACK;
+use sites::SITES;
+
+/// probe sizes (the model's `Driver/C16.lean` has the same three)
+pub const PROBES: [usize; 3] = [100, 400, 1600];
+/// the smallest frame a non-inlined x86-64 call can have: return address + 16-byte alignment
+const MIN_FRAME: usize = 16;
+/// upper end of the property's quantifier
+const MAX_SIZE: usize = 1_000_000;
 
 pub fn generate(ctx: &mut GenCtx) {
-    // quick: the size of the earlier probe; thorough: the quantifier's range 10^3 .. 10^6
-    let sizes: &[usize] = if ctx.thorough { &[1_000, 10_000, 100_000, 200_000, 1_000_000] } else { &[200_000] };
-    for (site, qcap, tcap) in SITES {
-        let cap = if ctx.thorough { *tcap } else { *qcap };
+    // quick: beyond 2 MiB / 16 B = 131072 elements; thorough: the quantifier's range 10^3 .. 10^6
+    let sizes: &[usize] = if ctx.thorough { &[1_000, 10_000, 100_000, 1_000_000] } else { &[200_000] };
+    for s in SITES {
+        let cap = if ctx.thorough { s.tcap } else { s.qcap };
         let mut seen: Vec<usize> = vec![];
         for &sz in sizes {
             let sz = sz.min(cap);
-            if seen.iter().any(|x: &usize| *x == sz) {
+            if seen.contains(&sz) {
                 continue;
             }
             seen.push(sz);
-            ctx.emit(&format!("run {} {} dev", site, sz));
-            ctx.stats.bump(&format!("site.{}", site));
+            ctx.emit(&format!("run {} n={} dev", s.name, sz));
+            ctx.stats.bump(&format!("site.{}", s.name));
+            ctx.stats.bump(&format!("dim.{}", s.dim));
+            ctx.stats.bump(&format!("entry.{}", s.entry));
             ctx.stats.bump("profile.dev");
             ctx.stats.bump(&format!("size.{}", sz));
+            if cap != usize::MAX {
+                ctx.stats.bump("size-capped(quadratic-time)");
+            }
         }
         if ctx.thorough {
-            let (a, b) = (200_000usize.min(cap), 1_000_000usize.min(cap));
+            let (a, b) = (200_000usize.min(cap), MAX_SIZE.min(cap));
             for sz in if a == b { vec![a] } else { vec![a, b] } {
-                ctx.emit(&format!("run {} {} release", site, sz));
+                ctx.emit(&format!("run {} n={} release", s.name, sz));
                 ctx.stats.bump("profile.release");
             }
         }
-        ctx.emit(&format!("site {} {}", site, PROBE_LARGE));
+        ctx.emit(&format!("site {} {}", s.name, PROBES[2]));
         ctx.stats.bump("model-only");
     }
 }
@@ -96,49 +86,73 @@ pub fn generate(ctx: &mut GenCtx) {
 // ------------------------------------------------------------------------------------------------
 // parent side
 
+#[derive(Clone, Debug)]
 struct ChildResult {
-    /// "ok" | "err" | "panic" | "abort" | "timeout"
+    /// "ok" | "err" | "panic" | "overflow" | "cpulimit" | "walllimit" | "died:<how>" | "spawn-failed"
     done: String,
     result: String,
     extent: Option<usize>,
 }
 
-fn run_child(bin: &PathBuf, site: &str, size: usize, timeout: Duration) -> ChildResult {
-    let fail = |d: &str| ChildResult { done: d.to_string(), result: "-".into(), extent: None };
+/// CPU seconds a child may use before the kernel stops it (SIGXCPU).  The slowest site needs ~12 s
+/// at 2*10^5 and ~1-2 min at 10^6 on this machine; CPU time does not depend on how many other jobs
+/// share the cores.
+fn cpu_limit(size: usize) -> u64 {
+    let base: u64 = std::env::var("VH_C16_CPU").ok().and_then(|s| s.parse().ok()).unwrap_or(1200);
+    if size > 200_000 { base * 3 } else { base }
+}
+
+fn run_child_once(bin: &PathBuf, site: &str, size: usize) -> ChildResult {
+    let fail = |d: String| ChildResult { done: d, result: "-".into(), extent: None };
+    let cpu = cpu_limit(size);
     let child = Command::new(bin)
         .arg("child")
         .arg(site)
         .arg(size.to_string())
+        .arg(cpu.to_string())
         .stdin(Stdio::null())
         .stdout(Stdio::piped())
-        .stderr(Stdio::null())
+        .stderr(Stdio::piped())
         .spawn();
-    let Ok(mut child) = child else { return fail("spawn-failed") };
+    let Ok(mut child) = child else { return fail("spawn-failed".into()) };
+    // wall-clock backstop only (a child that sleeps forever): far beyond anything CPU load can cause
+    let backstop = Duration::from_secs(cpu * 8);
     let t0 = Instant::now();
     let status = loop {
         match child.try_wait() {
             Ok(Some(st)) => break st,
             Ok(None) => {
-                if t0.elapsed() > timeout {
+                if t0.elapsed() > backstop {
                     let _ = child.kill();
                     let _ = child.wait();
-                    return fail("timeout");
+                    return fail("walllimit".into());
                 }
-                std::thread::sleep(Duration::from_millis(5));
+                std::thread::sleep(Duration::from_millis(10));
             }
-            Err(_) => return fail("wait-failed"),
+            Err(_) => return fail("died:wait-failed".into()),
         }
     };
+    // both outputs are a few hundred bytes at most (far below the pipe capacity)
     let mut out = String::new();
     if let Some(mut so) = child.stdout.take() {
         let _ = so.read_to_string(&mut out);
     }
-    if !status.success() {
-        // killed by a signal (SIGSEGV from the guard page, SIGABRT from Rust's overflow handler) or
-        // non-zero exit
-        return fail("abort");
+    let mut err = Vec::new();
+    if let Some(mut se) = child.stderr.take() {
+        let _ = se.read_to_end(&mut err);
     }
-    let mut r = ChildResult { done: "abort".into(), result: "-".into(), extent: None };
+    let err = String::from_utf8_lossy(&err);
+    if !status.success() {
+        let overflow_msg = err.contains("overflowed its stack");
+        return fail(match status.signal() {
+            Some(libc::SIGXCPU) => "cpulimit".into(),
+            Some(libc::SIGSEGV) | Some(libc::SIGBUS) => "overflow".into(),
+            Some(libc::SIGABRT) if overflow_msg => "overflow".into(),
+            Some(s) => format!("died:signal{}", s),
+            None => format!("died:exit{}", status.code().unwrap_or(-1)),
+        });
+    }
+    let mut r = ChildResult { done: "died:no-reply".into(), result: "-".into(), extent: None };
     for tok in out.split_whitespace() {
         if let Some((k, v)) = tok.split_once('=') {
             match k {
@@ -152,13 +166,24 @@ fn run_child(bin: &PathBuf, site: &str, size: usize, timeout: Duration) -> Child
     r
 }
 
+fn run_child(bin: &PathBuf, site: &str, size: usize) -> ChildResult {
+    let r = run_child_once(bin, site, size);
+    if r.done == "walllimit" || r.done == "spawn-failed" || r.done == "died:signal9" {
+        // (SIGKILL: the OOM killer under memory pressure from other jobs)
+        std::thread::sleep(Duration::from_secs(5));
+        // once more before giving up (never a verdict either way)
+        return run_child_once(bin, site, size);
+    }
+    r
+}
+
 fn crate_dir() -> PathBuf {
     // the standalone crate harness/props/c16 (config in harness/.cargo/config.toml applies)
     PathBuf::from(env!("CARGO_MANIFEST_DIR"))
 }
 
 /// the release variant of this very binary, built on demand against /repo's current working tree
-/// (shared target dir; cargo decides what is stale)
+/// (shared target dir; cargo decides what is stale); no time limit on the build
 fn release_bin() -> &'static Result<PathBuf, String> {
     static BIN: OnceLock<Result<PathBuf, String>> = OnceLock::new();
     BIN.get_or_init(|| {
@@ -180,62 +205,157 @@ fn release_bin() -> &'static Result<PathBuf, String> {
     })
 }
 
+#[derive(Clone, Debug)]
+struct Probe {
+    runs: Vec<ChildResult>,
+    /// "constant" | "linear" | "unknown"
+    growth: &'static str,
+    /// bytes of stack per additional element over the last increment (when both extents exist)
+    slope: Option<f64>,
+}
+
+fn ext_str(c: &ChildResult) -> String {
+    match (c.done.as_str(), c.extent) {
+        ("ok", Some(e)) | ("err", Some(e)) => e.to_string(),
+        ("overflow", _) => "overflow".to_string(),
+        _ => "unknown".to_string(),
+    }
+}
+
+fn classify(runs: &[ChildResult]) -> (&'static str, Option<f64>) {
+    let ext: Vec<Option<usize>> =
+        runs.iter().map(|c| if c.done == "ok" || c.done == "err" { c.extent } else { None }).collect();
+    let overflow: Vec<bool> = runs.iter().map(|c| c.done == "overflow").collect();
+    let mut slope = None;
+    if let (Some(a), Some(b)) = (ext[1], ext[2]) {
+        slope = Some((b as f64 - a as f64) / (PROBES[2] - PROBES[1]) as f64);
+    } else if let (Some(a), Some(b)) = (ext[0], ext[1]) {
+        slope = Some((b as f64 - a as f64) / (PROBES[1] - PROBES[0]) as f64);
+    }
+    let inc = |i: usize| -> Option<bool> {
+        // does the extent grow by a frame per element from probe i to probe i+1?
+        match (ext[i], ext[i + 1], overflow[i + 1]) {
+            (Some(a), Some(b), _) => Some(b >= a + MIN_FRAME * (PROBES[i + 1] - PROBES[i])),
+            // the smaller one fits, the larger one does not even fit in 2 MiB
+            (Some(_), None, true) => Some(true),
+            _ => None,
+        }
+    };
+    let growth = match (inc(0), inc(1)) {
+        (Some(true), Some(true)) => "linear",
+        (Some(false), Some(_)) | (Some(_), Some(false)) => "constant",
+        // the smallest probe already overflows: more than 20 KiB per element
+        _ if overflow[0] => "linear",
+        (Some(true), None) if overflow[1] => "linear",
+        _ => "unknown",
+    };
+    (growth, slope)
+}
+
+fn probes(bin: &PathBuf, site: &str, profile: &str) -> Probe {
+    type Cell = Arc<OnceLock<Probe>>;
+    static CACHE: OnceLock<Mutex<HashMap<(String, String), Cell>>> = OnceLock::new();
+    let cell = {
+        let mut m = CACHE.get_or_init(|| Mutex::new(HashMap::new())).lock().unwrap();
+        m.entry((site.to_string(), profile.to_string())).or_default().clone()
+    };
+    cell.get_or_init(|| {
+        let runs: Vec<ChildResult> = PROBES.iter().map(|n| run_child(bin, site, *n)).collect();
+        let (growth, slope) = classify(&runs);
+        Probe { runs, growth, slope }
+    })
+    .clone()
+}
+
+fn deadline_passed() -> bool {
+    static START: OnceLock<Instant> = OnceLock::new();
+    let t0 = *START.get_or_init(Instant::now);
+    let limit: u64 = std::env::var("VH_C16_DEADLINE").ok().and_then(|s| s.parse().ok()).unwrap_or(5 * 3600);
+    t0.elapsed() > Duration::from_secs(limit)
+}
+
 pub fn exec(line: &str) -> String {
     let f: Vec<&str> = line.split_whitespace().collect();
     match f.as_slice() {
         ["site", name, _n] => format!("site={}", name),
         ["run", site, size, profile] => {
-            let Ok(size) = size.parse::<usize>() else { return "bad-op".into() };
-            if !SITES.iter().any(|(s, _, _)| s == site) {
+            let Some(Ok(size)) = size.strip_prefix("n=").map(|x| x.parse::<usize>()) else { return "bad-op".into() };
+            let Some(s) = sites::find(site) else { return "bad-op".into() };
+            if *profile != "dev" && *profile != "release" {
                 return "bad-op".into();
+            }
+            if deadline_passed() {
+                return format!("site={} buildfail=0 completed=skipped", site);
             }
             let bin = match *profile {
                 "dev" => match std::env::current_exe() {
                     Ok(p) => p,
-                    Err(_) => return "buildfail=1".into(),
+                    Err(_) => return format!("site={} buildfail=1", site),
                 },
-                "release" => match release_bin() {
+                _ => match release_bin() {
                     Ok(p) => p.clone(),
                     Err(_) => return format!("site={} buildfail=1", site),
                 },
-                _ => return "bad-op".into(),
             };
-            let big_timeout = Duration::from_secs(if size > 200_000 { 900 } else { 240 });
-            let big = run_child(&bin, site, size, big_timeout);
-            let small = run_child(&bin, site, PROBE_SMALL, Duration::from_secs(120));
-            let large = run_child(&bin, site, PROBE_LARGE, Duration::from_secs(120));
-            let outcome = match big.done.as_str() {
-                "ok" | "err" => "ok",
-                "panic" => "panic",
-                "timeout" => "timeout",
-                _ => "abort",
-            };
-            let ext = |c: &ChildResult| match (c.done.as_str(), c.extent) {
-                ("ok", Some(e)) | ("err", Some(e)) => e.to_string(),
-                ("abort", _) => "overflow".to_string(),
-                _ => "unknown".to_string(),
-            };
-            let growth = match (small.done.as_str(), small.extent, large.done.as_str(), large.extent) {
-                (_, Some(a), _, Some(b)) => {
-                    if b >= a + 16 * (PROBE_LARGE - PROBE_SMALL) { "linear" } else { "constant" }
-                }
-                // already the probe size does not fit in 2 MiB although the small one does
-                ("ok", Some(_), "abort", _) => "linear",
-                _ => "unknown",
-            };
-            let mut out = format!("site={} buildfail=0 outcome={}", site, outcome);
-            // the result exists only when the operation came back
+            let big = run_child(&bin, site, size);
+            let pr = probes(&bin, site, profile);
+            let mut out = format!("site={} buildfail=0", site);
+            // `outcome` is what the property speaks about (the model demands `ok`); it is only printed
+            // when the child's fate is a fact about the stack, not about time or memory
+            let mut fail_overflow: Option<usize> = None;
             match big.done.as_str() {
-                "ok" => out += &format!(" result={}", big.result),
-                "err" => out += &format!(" result=err:{}", big.result),
-                _ => {}
+                "ok" | "err" => {
+                    out += " outcome=ok completed=yes";
+                    let r: Option<u64> = big.result.parse().ok();
+                    if big.done == "err" {
+                        out += &format!(" result=err:{} work=err", big.result);
+                    } else {
+                        let least = (s.least)(size);
+                        out += &format!(" result={}", big.result);
+                        out += &match r {
+                            Some(r) if r >= least => " work=ok".to_string(),
+                            _ => format!(" work=short(<{})", least),
+                        };
+                    }
+                }
+                "panic" => out += " outcome=panic completed=yes",
+                "overflow" => {
+                    out += " outcome=abort completed=yes";
+                    fail_overflow = Some(size);
+                }
+                other => out += &format!(" completed={}", other),
             }
-            out += &format!(" extent_small={} extent_large={} growth={}", ext(&small), ext(&large), growth);
-            match outcome {
-                "abort" => out += &format!(" FAIL.stack_overflow={}", site),
-                "panic" => out += &format!(" FAIL.panic={}", site),
-                "timeout" => out += &format!(" FAIL.timeout={}", site),
-                _ => {}
+            out += &format!(
+                " ext1={} ext2={} ext3={} growth={}",
+                ext_str(&pr.runs[0]),
+                ext_str(&pr.runs[1]),
+                ext_str(&pr.runs[2]),
+                pr.growth
+            );
+            if let Some(sl) = pr.slope {
+                out += &format!(" slope={:.1}", sl);
+            }
+            if pr.growth == "linear" {
+                // escalation: the size at which the measured slope exhausts the stack
+                if fail_overflow.is_none() && (big.done == "ok" || big.done == "err") {
+                    let sl = pr.slope.unwrap_or(0.0).max(MIN_FRAME as f64);
+                    let want = ((STACK as f64 * 1.25) / sl).ceil() as usize;
+                    let n = want.clamp(PROBES[2], MAX_SIZE);
+                    if n > size {
+                        let esc = run_child(&bin, site, n);
+                        out += &format!(" escalated={} escalated_done={}", n, esc.done);
+                        if esc.done == "overflow" {
+                            fail_overflow = Some(n);
+                        }
+                    }
+                }
+                out += &format!(" FAIL.stack_growth={}", site);
+            }
+            if let Some(n) = fail_overflow {
+                out += &format!(" overflow_at={} FAIL.stack_overflow={}", n, site);
+            }
+            if big.done == "panic" {
+                out += &format!(" FAIL.panic={}", site);
             }
             out
         }
@@ -243,91 +363,79 @@ pub fn exec(line: &str) -> String {
     }
 }
 
+/// `exec` with several requests in flight (each one only waits for child processes); replies are
+/// printed in request order
+fn exec_parallel() {
+    let lines: Vec<String> = std::io::stdin().lock().lines().map_while(Result::ok).collect();
+    let jobs: usize = std::env::var("VH_C16_JOBS").ok().and_then(|s| s.parse().ok()).unwrap_or(6).max(1);
+    let next = Arc::new(std::sync::atomic::AtomicUsize::new(0));
+    let lines = Arc::new(lines);
+    let (tx, rx) = std::sync::mpsc::channel::<(usize, String)>();
+    let mut hs = vec![];
+    for _ in 0..jobs.min(lines.len().max(1)) {
+        let (next, lines, tx) = (next.clone(), lines.clone(), tx.clone());
+        hs.push(std::thread::spawn(move || {
+            loop {
+                let i = next.fetch_add(1, std::sync::atomic::Ordering::SeqCst);
+                if i >= lines.len() {
+                    break;
+                }
+                let r = match vhcore::util::catch(std::panic::AssertUnwindSafe(|| exec(&lines[i]))) {
+                    Ok(r) => r,
+                    Err(m) => format!("panic={}", vhcore::util::hex(&m)),
+                };
+                if tx.send((i, r)).is_err() {
+                    break;
+                }
+            }
+        }));
+    }
+    drop(tx);
+    let mut pending: HashMap<usize, String> = HashMap::new();
+    let mut want = 0usize;
+    let mut out = std::io::BufWriter::new(std::io::stdout());
+    for (i, r) in rx {
+        pending.insert(i, r);
+        while let Some(r) = pending.remove(&want) {
+            writeln!(out, "{}", r).unwrap();
+            out.flush().unwrap();
+            want += 1;
+        }
+    }
+    for h in hs {
+        let _ = h.join();
+    }
+}
+
 // ------------------------------------------------------------------------------------------------
 // child side
 
-fn no_core_dumps_no_thp() {
+fn child_limits(cpu: u64) {
     unsafe {
         let rl = libc::rlimit { rlim_cur: 0, rlim_max: 0 };
         libc::setrlimit(libc::RLIMIT_CORE, &rl);
-        libc::prctl(libc::PR_SET_THP_DISABLE, 1 as libc::c_ulong, 0 as libc::c_ulong, 0 as libc::c_ulong, 0 as libc::c_ulong);
-    }
-}
-
-static STACK_LO: std::sync::atomic::AtomicUsize = std::sync::atomic::AtomicUsize::new(0);
-static STACK_TOP: std::sync::atomic::AtomicUsize = std::sync::atomic::AtomicUsize::new(0);
-
-/// lowest address of this thread's stack that the probes look at; `top` is the address of a local of
-/// the thread's entry function
-fn stack_bounds(top: usize) -> Option<usize> {
-    let maps = std::fs::read_to_string("/proc/self/maps").ok()?;
-    let mut start = None;
-    for l in maps.lines() {
-        let range = l.split_whitespace().next()?;
-        let (a, b) = range.split_once('-')?;
-        let a = usize::from_str_radix(a, 16).ok()?;
-        let b = usize::from_str_radix(b, 16).ok()?;
-        if a <= top && top < b {
-            start = Some(a);
-            break;
-        }
-    }
-    let start = start?;
-    let top_page_end = (top / PAGE + 1) * PAGE;
-    // never look further down than the stack can reach (the mapping may have been merged with a
-    // neighbour): the last 64 KiB before the guard page are left out
-    Some(start.max(top_page_end.saturating_sub(STACK - 64 * 1024)))
-}
-
-/// distance from the thread entry down to the lowest page of this thread's stack that has been
-/// touched since the last `stack_reset`
-fn stack_extent() -> Option<usize> {
-    use std::sync::atomic::Ordering::Relaxed;
-    let (lo, top) = (STACK_LO.load(Relaxed), STACK_TOP.load(Relaxed));
-    if lo == 0 {
-        return None;
-    }
-    let top_page_end = (top / PAGE + 1) * PAGE;
-    let n = (top_page_end - lo) / PAGE;
-    let mut vec = vec![0u8; n];
-    let rc = unsafe { libc::mincore(lo as *mut libc::c_void, n * PAGE, vec.as_mut_ptr()) };
-    if rc != 0 {
-        return None;
-    }
-    let first = vec.iter().position(|b| b & 1 == 1)?;
-    Some(top.saturating_sub(lo + first * PAGE))
-}
-
-/// forget which stack pages *below the caller* were touched so far (building the input data is not
-/// part of the measured operation): the pages strictly below this frame hold no live data and are
-/// handed back to the kernel; they read as zero pages when touched again.
-#[inline(never)]
-fn stack_reset() {
-    use std::sync::atomic::Ordering::Relaxed;
-    let marker = 0u8;
-    let here = std::hint::black_box(&marker) as *const u8 as usize;
-    let lo = STACK_LO.load(Relaxed);
-    let hi = (here / PAGE) * PAGE - PAGE;
-    if lo != 0 && hi > lo {
-        unsafe {
-            libc::madvise(lo as *mut libc::c_void, hi - lo, libc::MADV_DONTNEED);
+        if cpu > 0 {
+            let rl = libc::rlimit { rlim_cur: cpu as libc::rlim_t, rlim_max: (cpu + 5) as libc::rlim_t };
+            libc::setrlimit(libc::RLIMIT_CPU, &rl);
         }
     }
 }
 
-fn child(site: String, size: usize) -> ! {
-    no_core_dumps_no_thp();
+fn child(site: String, size: usize, cpu: u64) -> ! {
+    child_limits(cpu);
+    let Some(s) = sites::find(&site) else {
+        println!("done=err result=unknown-site extent=unknown");
+        std::process::exit(0)
+    };
+    let f = s.f;
     let h = std::thread::Builder::new()
         .stack_size(STACK)
         .spawn(move || {
             let marker = 0u8;
             let top = std::hint::black_box(&marker) as *const u8 as usize;
-            if let Some(lo) = stack_bounds(top) {
-                STACK_LO.store(lo, std::sync::atomic::Ordering::Relaxed);
-                STACK_TOP.store(top, std::sync::atomic::Ordering::Relaxed);
-            }
-            let r = run_site(&site, size);
-            let e = stack_extent();
+            probe::init(top);
+            let r = f(size);
+            let e = probe::extent();
             (r, e)
         })
         .expect("spawn");
@@ -337,12 +445,7 @@ fn child(site: String, size: usize) -> ! {
                 Ok(n) => ("ok", n.to_string()),
                 Err(k) => ("err", k),
             };
-            println!(
-                "done={} result={} extent={}",
-                done,
-                result,
-                e.map(|x| x.to_string()).unwrap_or_else(|| "unknown".into())
-            );
+            println!("done={} result={} extent={}", done, result, e.map(|x| x.to_string()).unwrap_or_else(|| "unknown".into()));
             std::process::exit(0)
         }
         Err(_) => {
@@ -352,361 +455,19 @@ fn child(site: String, size: usize) -> ! {
     }
 }
 
-fn iri(s: String) -> SimpleTerm<'static> {
-    SimpleTerm::Iri(IriRef::new_unchecked(MownStr::from(s)))
-}
-fn bn(s: String) -> SimpleTerm<'static> {
-    SimpleTerm::BlankNode(BnodeId::new_unchecked(MownStr::from(s)))
-}
-fn lit(s: String) -> SimpleTerm<'static> {
-    SimpleTerm::LiteralDatatype(
-        MownStr::from(s),
-        IriRef::new_unchecked(MownStr::from("http://www.w3.org/2001/XMLSchema#string".to_string())),
-    )
-}
-const RDF: &str = "http://www.w3.org/1999/02/22-rdf-syntax-ns#";
-
-fn is_match(t: &SimpleTerm<'_>) -> bool {
-    matches!(t, SimpleTerm::Iri(i) if i.as_str() == "x:match")
-}
-
-/// which position varies over the `size` non-matching rows (and carries the closure matcher)
-#[derive(Clone, Copy, PartialEq)]
-enum Pos {
-    S,
-    P,
-    O,
-}
-
-fn row(pos: Pos, x: SimpleTerm<'static>) -> [SimpleTerm<'static>; 3] {
-    let (s, p, o) = (iri("x:s".into()), iri("x:p".into()), iri("x:o".into()));
-    match pos {
-        Pos::S => [x, p, o],
-        Pos::P => [s, x, o],
-        Pos::O => [s, p, x],
-    }
-}
-
-/// `size` rows that the closure rejects, then (in index order: terms are numbered in insertion
-/// order) one row that it accepts — so the scan skips `size` rows before its first result
-fn build_dataset(pos: Pos, size: usize) -> LightDataset {
-    let mut d = LightDataset::new();
-    // make sure the constant positions get the smallest indexes
-    for i in 0..size {
-        let [s, p, o] = row(pos, iri(format!("x:n{}", i)));
-        d.insert(s, p, o, None::<SimpleTerm>).unwrap();
-    }
-    let [s, p, o] = row(pos, iri("x:match".into()));
-    d.insert(s, p, o, None::<SimpleTerm>).unwrap();
-    d
-}
-
-fn build_graph(pos: Pos, size: usize) -> LightGraph {
-    let mut g = LightGraph::new();
-    for i in 0..size {
-        let [s, p, o] = row(pos, iri(format!("x:n{}", i)));
-        g.insert(s, p, o).unwrap();
-    }
-    let [s, p, o] = row(pos, iri("x:match".into()));
-    g.insert(s, p, o).unwrap();
-    g
-}
-
-fn list_quads(size: usize) -> Vec<Spog<SimpleTerm<'static>>> {
-    let mut v = vec![];
-    let first = iri(format!("{}first", RDF));
-    let rest = iri(format!("{}rest", RDF));
-    let nil = iri(format!("{}nil", RDF));
-    v.push(([iri("x:s".into()), iri("x:p".into()), bn("b0".into())], None));
-    for i in 0..size {
-        v.push(([bn(format!("b{}", i)), first.clone(), lit(format!("v{}", i))], None));
-        let next = if i + 1 == size { nil.clone() } else { bn(format!("b{}", i + 1)) };
-        v.push(([bn(format!("b{}", i)), rest.clone(), next], None));
-    }
-    v
-}
-
-fn count_sub(hay: &str, needle: &str) -> u64 {
-    hay.matches(needle).count() as u64
-}
-
-// ---- GenericLightDataset::quads_matching: no constant graph name -> GspoMatchingIterator
-#[inline(never)]
-fn site_iter_gspo_first(size: usize) -> Result<u64, String> {
-    use sophia_api::term::matcher::Any;
-    let clo = |t: SimpleTerm<'_>| is_match(&t);
-    let d = build_dataset(Pos::S, size);
-    stack_reset();
-    Ok(d.quads_matching(clo, Any, Any, Any).filter(|r| r.is_ok()).count() as u64)
-}
-
-#[inline(never)]
-fn site_iter_gspo_last(size: usize) -> Result<u64, String> {
-    use sophia_api::term::matcher::Any;
-    let clo = |t: SimpleTerm<'_>| is_match(&t);
-    let d = build_dataset(Pos::O, size);
-    stack_reset();
-    Ok(d.quads_matching(Any, Any, clo, Any).filter(|r| r.is_ok()).count() as u64)
-}
-
-// ---- constant graph name, subject not constant -> BcdMatchingIterator
-#[inline(never)]
-fn site_iter_bcd_first(size: usize) -> Result<u64, String> {
-    use sophia_api::term::matcher::Any;
-    let clo = |t: SimpleTerm<'_>| is_match(&t);
-    let dg = [None::<SimpleTerm<'static>>];
-    let d = build_dataset(Pos::S, size);
-    stack_reset();
-    Ok(d.quads_matching(clo, Any, Any, dg).filter(|r| r.is_ok()).count() as u64)
-}
-
-#[inline(never)]
-fn site_iter_bcd_last(size: usize) -> Result<u64, String> {
-    use sophia_api::term::matcher::Any;
-    let clo = |t: SimpleTerm<'_>| is_match(&t);
-    let dg = [None::<SimpleTerm<'static>>];
-    let d = build_dataset(Pos::O, size);
-    stack_reset();
-    Ok(d.quads_matching(Any, Any, clo, dg).filter(|r| r.is_ok()).count() as u64)
-}
-
-// ---- constant graph name and subject, predicate not constant -> CdMatchingIterator
-#[inline(never)]
-fn site_iter_cd_first(size: usize) -> Result<u64, String> {
-    use sophia_api::term::matcher::Any;
-    let clo = |t: SimpleTerm<'_>| is_match(&t);
-    let dg = [None::<SimpleTerm<'static>>];
-    let d = build_dataset(Pos::P, size);
-    stack_reset();
-    Ok(d.quads_matching([iri("x:s".into())], clo, Any, dg).filter(|r| r.is_ok()).count() as u64)
-}
-
-#[inline(never)]
-fn site_iter_cd_last(size: usize) -> Result<u64, String> {
-    use sophia_api::term::matcher::Any;
-    let clo = |t: SimpleTerm<'_>| is_match(&t);
-    let dg = [None::<SimpleTerm<'static>>];
-    let d = build_dataset(Pos::O, size);
-    stack_reset();
-    Ok(d.quads_matching([iri("x:s".into())], Any, clo, dg).filter(|r| r.is_ok()).count() as u64)
-}
-
-// ---- GenericLightGraph::triples_matching: subject not constant -> SpoMatchingIterator
-#[inline(never)]
-fn site_iter_spo_first(size: usize) -> Result<u64, String> {
-    use sophia_api::term::matcher::Any;
-    let clo = |t: SimpleTerm<'_>| is_match(&t);
-    let g = build_graph(Pos::S, size);
-    stack_reset();
-    Ok(g.triples_matching(clo, Any, Any).filter(|r| r.is_ok()).count() as u64)
-}
-
-#[inline(never)]
-fn site_iter_spo_last(size: usize) -> Result<u64, String> {
-    use sophia_api::term::matcher::Any;
-    let clo = |t: SimpleTerm<'_>| is_match(&t);
-    let g = build_graph(Pos::O, size);
-    stack_reset();
-    Ok(g.triples_matching(Any, Any, clo).filter(|r| r.is_ok()).count() as u64)
-}
-
-// ---- constant subject, predicate not constant -> BcMatchingIterator
-#[inline(never)]
-fn site_iter_bc_first(size: usize) -> Result<u64, String> {
-    use sophia_api::term::matcher::Any;
-    let clo = |t: SimpleTerm<'_>| is_match(&t);
-    let g = build_graph(Pos::P, size);
-    stack_reset();
-    Ok(g.triples_matching([iri("x:s".into())], clo, Any).filter(|r| r.is_ok()).count() as u64)
-}
-
-#[inline(never)]
-fn site_iter_bc_last(size: usize) -> Result<u64, String> {
-    use sophia_api::term::matcher::Any;
-    let clo = |t: SimpleTerm<'_>| is_match(&t);
-    let g = build_graph(Pos::O, size);
-    stack_reset();
-    Ok(g.triples_matching([iri("x:s".into())], Any, clo).filter(|r| r.is_ok()).count() as u64)
-}
-
-// ---- N-Triples serialisation of one literal with `size` escaped characters
-#[inline(never)]
-fn site_nt_literal(size: usize) -> Result<u64, String> {
-    use sophia_turtle::serializer::nt::NtSerializer;
-    let g = vec![[iri("x:s".into()), iri("x:p".into()), lit("\n".repeat(size))]];
-    let mut ser = NtSerializer::new_stringifier();
-    stack_reset();
-    match ser.serialize_graph(&g) {
-        Ok(s) => Ok(s.as_utf8().iter().filter(|b| **b == b'\\').count() as u64),
-        Err(_) => Err("sink".into()),
-    }
-}
-
-// ---- RDFC-1.0 of one quad whose literal has `size` escaped characters (c14n::_cnq::nq)
-#[inline(never)]
-fn site_c14n_literal(size: usize) -> Result<u64, String> {
-    let mut d = LightDataset::new();
-    d.insert(iri("x:s".into()), iri("x:p".into()), lit("\n".repeat(size)), None::<SimpleTerm>).unwrap();
-    let mut out = Vec::new();
-    stack_reset();
-    match sophia_c14n::rdfc10::normalize(&d, &mut out) {
-        Ok(()) => Ok(out.iter().filter(|b| **b == b'\\').count() as u64),
-        Err(_) => Err("c14n".into()),
-    }
-}
-
-// ---- GRAPH ?g over `size` named graphs (sparql::exec::graph_rec)
-#[inline(never)]
-fn site_sparql_graph(size: usize) -> Result<u64, String> {
-    use sophia_api::sparql::Query as _;
-    use sophia_sparql::{SparqlQuery, SparqlWrapper};
-    let mut d = LightDataset::new();
-    for i in 0..size {
-        d.insert(iri("x:s".into()), iri("x:p".into()), iri("x:o".into()), Some(iri(format!("x:g{}", i)))).unwrap();
-    }
-    let w = SparqlWrapper(&d);
-    let q = SparqlQuery::parse("SELECT ?g { GRAPH ?g { ?s ?p ?o } }").map_err(|_| "parse".to_string())?;
-    stack_reset();
-    match w.query(&q) {
-        Ok(r) => Ok(r.into_bindings().into_iter().filter(|b| b.is_ok()).count() as u64),
-        Err(_) => Err("query".into()),
-    }
-}
-
-// ---- a two-pattern BGP over `size` rows (sparql::bgp::bgp_rec recurses per *pattern*)
-#[inline(never)]
-fn site_sparql_bgp(size: usize) -> Result<u64, String> {
-    use sophia_api::sparql::Query as _;
-    use sophia_sparql::{SparqlQuery, SparqlWrapper};
-    let d = build_dataset(Pos::S, size);
-    let w = SparqlWrapper(&d);
-    let q = SparqlQuery::parse("SELECT ?s { ?s <x:p> ?o . ?s <x:p> <x:o> }").map_err(|_| "parse".to_string())?;
-    stack_reset();
-    match w.query(&q) {
-        Ok(r) => Ok(r.into_bindings().into_iter().filter(|b| b.is_ok()).count() as u64 - 1),
-        Err(_) => Err("query".into()),
-    }
-}
-
-// ---- JSON-LD serialisation of one RDF list with `size` items (mark_list_node, populate_list)
-#[inline(never)]
-fn site_jsonld_list(size: usize) -> Result<u64, String> {
-    use sophia_jsonld::serializer::JsonLdSerializer;
-    let d = list_quads(size);
-    let mut ser = JsonLdSerializer::new_stringifier();
-    stack_reset();
-    match ser.serialize_dataset(&d) {
-        Ok(s) => Ok(count_sub(s.as_str(), "\"@value\"")),
-        Err(_) => Err("jsonld".into()),
-    }
-}
-
-// ---- pretty Turtle of one RDF list with `size` items
-#[inline(never)]
-fn site_turtle_list(size: usize) -> Result<u64, String> {
-    use sophia_turtle::serializer::turtle::{TurtleConfig, TurtleSerializer};
-    let d = list_quads(size);
-    let g: Vec<[SimpleTerm<'static>; 3]> = d.into_iter().map(|(t, _)| t).collect();
-    let mut ser = TurtleSerializer::new_stringifier_with_config(TurtleConfig::new().with_pretty(true));
-    stack_reset();
-    match ser.serialize_graph(&g) {
-        Ok(s) => Ok(count_sub(s.as_str(), "\"v")),
-        Err(_) => Err("turtle".into()),
-    }
-}
-
-// ---- pretty Turtle of `size` subjects (find_subject: binary search by recursion)
-#[inline(never)]
-fn site_turtle_subjects(size: usize) -> Result<u64, String> {
-    use sophia_turtle::serializer::turtle::{TurtleConfig, TurtleSerializer};
-    let g: Vec<[SimpleTerm<'static>; 3]> =
-        (0..size).map(|i| [iri(format!("x:n{}", i)), iri("x:p".into()), bn(format!("b{}", i))]).collect();
-    let mut ser = TurtleSerializer::new_stringifier_with_config(TurtleConfig::new().with_pretty(true));
-    stack_reset();
-    match ser.serialize_graph(&g) {
-        Ok(s) => Ok(count_sub(s.as_str(), "<x:p>")),
-        Err(_) => Err("turtle".into()),
-    }
-}
-
-// pretty Turtle of one subject with `size` objects (DedupIterator skips size-1 duplicates)
-#[inline(never)]
-fn site_turtle_objects(size: usize) -> Result<u64, String> {
-    use sophia_turtle::serializer::turtle::{TurtleConfig, TurtleSerializer};
-    let g: Vec<[SimpleTerm<'static>; 3]> =
-        (0..size).map(|i| [iri("x:s".into()), iri("x:p".into()), iri(format!("x:n{}", i))]).collect();
-    let mut ser = TurtleSerializer::new_stringifier_with_config(TurtleConfig::new().with_pretty(true));
-    stack_reset();
-    match ser.serialize_graph(&g) {
-        Ok(s) => Ok(count_sub(s.as_str(), "<x:n")),
-        Err(_) => Err("turtle".into()),
-    }
-}
-
-// ---- parsing a document of `size` statements (+ inserting them: the "mutating" dimension)
-#[inline(never)]
-fn site_parse_nt(size: usize) -> Result<u64, String> {
-    let mut doc = String::new();
-    for i in 0..size {
-        doc.push_str(&format!("<x:n{}> <x:p> \"v{}\\n\" .\n", i, i));
-    }
-    let mut g = LightGraph::new();
-    stack_reset();
-    match sophia_turtle::parser::nt::parse_str(&doc).add_to_graph(&mut g) {
-        Ok(n) => Ok(n as u64),
-        Err(_) => Err("parse".into()),
-    }
-}
-
-#[inline(never)]
-fn site_parse_turtle(size: usize) -> Result<u64, String> {
-    let mut doc = String::from("@prefix x: <x:> .\n");
-    for i in 0..size {
-        doc.push_str(&format!("x:n{} x:p \"v{}\\n\" ;\n  x:q [ x:r ( {} ) ] .\n", i, i, i));
-    }
-    let mut g = LightGraph::new();
-    stack_reset();
-    match sophia_turtle::parser::turtle::parse_str(&doc).add_to_graph(&mut g) {
-        Ok(n) => Ok((n / 5) as u64),
-        Err(_) => Err("parse".into()),
-    }
-}
-
-/// the real operation; Ok(canonical result) or Err(error kind).  One function per site so that the
-/// dispatcher's own frame stays small (dev builds give every local of every arm its own slot).
-#[inline(never)]
-fn run_site(site: &str, size: usize) -> Result<u64, String> {
-    match site {
-        "iter_gspo_first" => site_iter_gspo_first(size),
-        "iter_gspo_last" => site_iter_gspo_last(size),
-        "iter_bcd_first" => site_iter_bcd_first(size),
-        "iter_bcd_last" => site_iter_bcd_last(size),
-        "iter_cd_first" => site_iter_cd_first(size),
-        "iter_cd_last" => site_iter_cd_last(size),
-        "iter_spo_first" => site_iter_spo_first(size),
-        "iter_spo_last" => site_iter_spo_last(size),
-        "iter_bc_first" => site_iter_bc_first(size),
-        "iter_bc_last" => site_iter_bc_last(size),
-        "nt_literal" => site_nt_literal(size),
-        "c14n_literal" => site_c14n_literal(size),
-        "sparql_graph" => site_sparql_graph(size),
-        "sparql_bgp" => site_sparql_bgp(size),
-        "jsonld_list" => site_jsonld_list(size),
-        "turtle_list" => site_turtle_list(size),
-        "turtle_subjects" => site_turtle_subjects(size),
-        "turtle_objects" => site_turtle_objects(size),
-        "parse_nt" => site_parse_nt(size),
-        "parse_turtle" => site_parse_turtle(size),
-        _ => Err("unknown-site".into()),
-    }
-}
-
 fn main() {
     let args: Vec<String> = std::env::args().collect();
-    if args.get(1).map(|s| s.as_str()) == Some("child") {
-        let site = args.get(2).cloned().unwrap_or_default();
-        let size = args.get(3).and_then(|s| s.parse().ok()).unwrap_or(0);
-        child(site, size);
+    match args.get(1).map(|s| s.as_str()) {
+        Some("child") => {
+            let site = args.get(2).cloned().unwrap_or_default();
+            let size = args.get(3).and_then(|s| s.parse().ok()).unwrap_or(0);
+            let cpu = args.get(4).and_then(|s| s.parse().ok()).unwrap_or(0);
+            child(site, size, cpu);
+        }
+        Some("exec") => {
+            std::panic::set_hook(Box::new(|_| {}));
+            exec_parallel();
+        }
+        _ => vhcore::main_loop(generate, exec),
     }
-    vhcore::main_loop(generate, exec)
 }
